@@ -110,7 +110,9 @@ def gen_msd_text(rng, fmt=None):
     used = []
     for _ in range(nparams):
         stray()
-        k = rng.choice(KEYS) if rng.random() < 0.85 else gen.gen_string(rng, "plain", 4).replace("\n", "")
+        k = rng.choice(KEYS) if rng.random() < 0.8 else (
+            rng.choice(gen.LEGACY_TAGS) if rng.random() < 0.4 else
+            gen.gen_string(rng, "plain", 4).replace("\n", ""))
         if used and rng.random() < 0.2:
             k = rng.choice(used)        # duplicate key
         used.append(k)
@@ -261,6 +263,7 @@ def generate(prop, rng, run, tier):
         cfg["newline"] = gen.wchoice(rng, [("default", 6), ("none", 2), ("empty", 2)])
         if rng.random() < 0.3:
             cfg["explicit_first"] = rng.choice(["cp1252", "latin-1", "cp932", "utf-8", "cp949"])
+        cfg["store_enc"] = rng.choice([None, None, "cp1252", "cp932", "cp949"])
         r = rng.random()
         if r < 0.04:
             rel = rng.choice(CORPUS["sm"] + CORPUS["ssc"])
@@ -273,6 +276,11 @@ def generate(prop, rng, run, tier):
             text = gen_msd_text(rng)
             cfg["source"] = "generated"
         names = rng.sample(NAMES, 3)
+        if cfg.get("store_enc") and text.isascii() and rng.random() < 0.7:
+            # make the stored bytes of that code page invalid UTF-8 (a comment at the end)
+            text = text + "// " + {"cp1252": "caf\u00e9", "cp932": "\u3042\u30bd",
+                                    "cp949": "\ud55c\uae00"}[cfg["store_enc"]] + "\n"
+            text = _leading_bom_only(_no_trailing_backslash(text))
         sc = {"workload": "load", "property": "C03", "config": cfg, "text": text, "names": names}
         # history inside the scenario: another text (usually of the other format) is
         # loaded first through the same entry points under the same file names, so that
@@ -598,6 +606,18 @@ def check_c03(sc, res):
         data = text.encode("utf-8")
     except UnicodeEncodeError:
         data = None
+    alt = None
+    if data is not None and cfg.get("store_enc"):
+        # the same text stored in a code page: open(filename) reaches it through the
+        # fallback encodings (only when detection recovers exactly this text)
+        try:
+            d2 = text.encode(cfg["store_enc"])
+        except UnicodeEncodeError:
+            d2 = None
+        if d2 is not None and d2 != data:
+            enc2 = ref_encoding(d2, DEFAULT_ENCODINGS)
+            if enc2 and enc2 != "utf-8" and d2.decode(enc2) == text:
+                alt = d2
     if data is not None:
         for name in sc.get("names", []):
             for facade in ("simfs", "native") + (("memoryfs", "realos") if cfg.get("real") else ()):
@@ -643,7 +663,10 @@ def check_c03(sc, res):
                         return r
 
                 def via_name():
-                    disk = make_disk(world, {"short_reads": sr}, None, facade)
+                    w = world if alt is None else {"dirs": ["/d"], "files": {path: alt.hex()}}
+                    disk = make_disk(w, {"short_reads": sr}, None, facade)
+                    if alt is not None:
+                        res.stats["probe:open-by-name-in-fallback-encoding"] += 1
                     with Facade(facade, disk) as fa:
                         return sfm.open(fa.p(path), strict=strict, **dict(fa.kw, **kw))
 
